@@ -31,6 +31,7 @@ QUICK = [
     _c('halfhour_day_unit', 'contract_storage', dict(T=3, freq='30min', unit='d', wacc=True)),
     _c('window_inside', 'contract_storage', dict(T=4, win_s=(1, 3))),
     _c('window_straddle', 'contract_storage', dict(T=3, win_s=(-1, 2))),
+    _c('window_inside_repeated_setup', 'contract_storage', dict(T=4, win_s=(1, 3)), 'B', dict(warmup=True)),
     _c('in_portfolio_not_last', 'two_node', dict(T=2)),
     _c('two_nodes', 'two_node', dict(T=2, two_node_storage=True)),
     _c('no_simult', 'contract_storage', dict(T=2, storage_kw=dict(no_simult_in_out=True)), 'A'),
@@ -78,7 +79,11 @@ def physical(sc, name):
     mine = mp[(mp['asset'] == name) & (mp['type'] == 'd')]
     charge = [z3.RealVal(0)] * T
     discharge = [z3.RealVal(0)] * T
-    active = sorted(set(int(t) for t in mine['time_step']))
+    # the storage's active steps from its own window (harness), not from the mapping
+    from ..refmap import _ts
+    s_, e_ = _ts(st.start, tg.tz), _ts(st.end, tg.tz)
+    active = [t for t in range(T) if (s_ is None or tg.timepoints[t] >= s_) and (e_ is None or tg.timepoints[t] < e_)]
+    physical.mapped = sorted(set(int(t) for t in mine['time_step']))
     seen = set()
     for i, r in mine.iterrows():
         t = int(r['time_step'])
@@ -121,7 +126,7 @@ def block_groups(tg, active, block):
 def run_case(case_id, tier, seed, shape, kw, level, opts):
     rec = lpsem.Rec(PROP, case_id)
     name = opts.get('name', 'sto')
-    res = scen.explore(shape, kw, level=level)
+    res = scen.explore(shape, kw, level=level, warmup=bool(opts.get('warmup')))
     rec.paths = len(res)
     validated = False
     kf_msd = known.is_open('KF-C05-msd')
@@ -138,6 +143,14 @@ def run_case(case_id, tier, seed, shape, kw, level, opts):
         if rec.vacuity(P, assume) is None:
             continue
         st, active, charge, discharge, level_t, dtv = physical(sc, name)
+        okw = physical.mapped == active
+        nmw = P + '/dispatch_variables_exactly_in_window'
+        rec.obligations.append(dict(name=nmw, verdict='unsat' if okw else 'sat', secs=0, form='Q2'))
+        rec.distinct.add(nmw)
+        if not okw:
+            rec.candidates.append(dict(name=nmw, env=common.generic_point(list(D.pre) + path.pc, D.names, seed) or {},
+                                       info=dict(kind='window_steps', asset=name, active=active, mapped=physical.mapped), form='struct'))
+            continue
         if not active:
             rec.note('storage inactive')
             continue
@@ -223,7 +236,7 @@ def run_case(case_id, tier, seed, shape, kw, level, opts):
 
 def observe(case, kwargs, env, rq):
     D = lift.Domain(theta=env)
-    sc = scen.run(D, kwargs['shape'], kwargs.get('kw'), None, True, env=env)
+    sc = scen.run(D, kwargs['shape'], kwargs.get('kw'), None, True, env=env, warmup=bool(kwargs.get('opts', {}).get('warmup')))
     o = scen.observation(sc)
     if rq.get('kind') == 'replay':
         name = kwargs.get('opts', {}).get('name', 'sto')
@@ -244,6 +257,9 @@ def judge(case, kwargs, cand, ans):
     p = o['problem']
     n = len(p['c'])
     x = [cand['env'].get('x%d' % i, 0.0) for i in range(n)]
+    if info.get('kind') == 'window_steps':
+        mapped = sorted({m['time_step'] for m in p['mapping'] if m['asset'] == info['asset'] and m['type'] == 'd'})
+        return mapped != info['active'], 'the storage has dispatch variables at steps %s, its window covers %s' % (mapped, info['active'])
     r = scen.feasibility_residual(p, x)
     if r > 1e-6:
         return False, 'counterexample x infeasible for the unshimmed problem (residual %.3g)' % r
@@ -269,6 +285,8 @@ def judge(case, kwargs, cand, ans):
         lev.append(cur)
     iv = o['output']['internal_variables']
     k = info.get('kind'); t = info.get('t')
+    if k == 'window_steps':
+        return sorted(active) != info['active'], 'the storage has dispatch variables at steps %s, its window covers %s' % (sorted(active), info['active'])
     tol = 1e-6 * max(1.0, s['size'], max(abs(v) for v in lev))
     if k == 'level':
         bad = lev[t] < -tol or lev[t] > s['size'] + tol
